@@ -58,7 +58,7 @@ claim(
 claim(
     "C06", "other",
     "path/provenance rule on get_raw_data; constant-argument audit of set_config; type-consistency rule (shape inference) for the ENC comparison; effect/exception rules for missing cipher; source-sink taint analysis over the term DAG",
-    "Decides: on the encryption arm get_raw_data returns create_AES128(session_key).encrypt(pad(self.blob)) (default zero IV) and the blob reaches the stored bytes only through the cipher; pad and the adapter append (-len) mod 16 zero bytes; set_config always builds its component with encrypt_by_session_key=True and tags TYPE=03 ENC=02 FMT=03 REBOOT=01; the reader compares the ENC tag with the one-byte encoding the writer emits (bytes vs bytes) and decrypts with the session key keeping the flag; base AES128 methods only raise, with no cipher registered the encryption arm has no normal exit, and no handler on the write path can complete normally; session key, security code, customer key and wrapped plaintext reach returned bytes only through encrypt / mac / sha256 / key positions; derived comments are identifier strings or constants. Correctness of the ciphertext bytes is C16's clause.",
+    "Decides: on the encryption arm get_raw_data returns create_AES128(session_key).encrypt(pad(self.blob)) (default zero IV) and the blob reaches the stored bytes only through the cipher; pad and the adapter append (-len) mod 16 zero bytes; set_config always builds its component with encrypt_by_session_key=True and tags TYPE=03 ENC=02 FMT=03 REBOOT=01; the reader selects the decrypting constructor by description[ENC] == b'\x02' compared as bytes, builds every other component only where the tag is known to differ or be absent, and decrypts with the session key keeping the flag; base AES128 methods only raise, with no cipher registered the encryption arm has no normal exit, and no handler on the write path can complete normally; session key, security code, customer key and wrapped plaintext reach returned bytes only through encrypt / mac / sha256 / key positions; derived comments are identifier strings or constants. Correctness of the ciphertext bytes is C16's clause.",
     "Trusted: python ast, bfsa. MAC / hash outputs are assumed not to reveal inputs.",
     "DESIGN.md section 4, C06",
 )
@@ -100,7 +100,7 @@ claim(
 claim(
     "C14", "other",
     "interprocedural exception-escape analysis (may-raise sets with witnesses) over the structural abstract interpretation: fixed catalogue of implicit raisers typed by shape inference, discharge by path facts and audited table invariants, handler filtering by class hierarchy; typed rule for the BF2 tagged union; loop-progress rule; global-write effect rule",
-    "Decides for the five parser entry points (BF3 reader, BEC2 reader with every decryptor set by class-hierarchy analysis, BF2 importer, identifier parser, filter formatter): every exception class that can leave them -- explicit raises and implicit raisers (subscripts, unpacking, int(), unhexlify, to_bytes, decode, pop, division) minus what enclosing handlers catch, implicit ones discharged by dominating length/truthiness/membership guards, successful earlier lookups, certainly-present keys or audited constant tables -- is a FormatError, a ValueError or (path I/O) an OSError; sites where another class escapes are reported by raising construct (the ones present on the pinned tree are known findings with failing inputs). Consumers of the BF2 line parser's tagged union that need one payload type are reported (TypeError/AttributeError sources); every reachable while-loop consumes input from a finite source or raises at its end; no reachable function writes library-global state. Not modelled: TypeError/AttributeError outside that union, MemoryError, RecursionError.",
+    "Decides for the five parser entry points (BF3 reader, BEC2 reader with every decryptor set by class-hierarchy analysis, BF2 importer, identifier parser, filter formatter): every exception class that can leave them -- explicit raises and implicit raisers (subscripts, unpacking, int(), unhexlify, to_bytes, decode, pop, division) minus what enclosing handlers catch, implicit ones discharged by dominating length/truthiness/membership guards, successful earlier lookups, certainly-present keys or audited constant tables -- is a FormatError, a ValueError or (path I/O) an OSError; sites where another class escapes are reported by raising construct (the ones present on the pinned tree are known findings with failing inputs). Consumers of the BF2 line parser's tagged union that need one payload type are reported (TypeError/AttributeError sources); an optional lookup (d.get(k), d.pop(k, None)) on parsed input must be tested before a use that needs a value; every cmac() call a parser reaches gets provably non-empty data (else the registered cipher's bare Exception, a known finding for one site); every reachable while-loop consumes input from a finite source or raises at its end; no reachable function writes library-global state. Not modelled: TypeError/AttributeError outside that union, MemoryError, RecursionError.",
     "Trusted: python ast, bfsa (abstract interpreter, EXC catalogue, facts), spec/discharge.json (per-site reasons), summaries at the boundary to the vendored ECC library (decoder escapes as established under C19; key agreement on validated keys assumed total) and of the AES block functions (licensed by the concrete-control interpretation of C16).",
     "DESIGN.md section 4, C14",
 )
@@ -121,21 +121,21 @@ claim(
 claim(
     "C19", "other",
     "exception-escape analysis of the ECC library's decoders with Fourier-Motzkin discharge of index and assertion obligations; sibling rule over the DER remove_* primitives; remainder-provenance rule for trailing data; constant audit of OIDs and the 27-byte header; encoder/decoder prefix agreement",
-    "Decides: for the DER primitives, VerifyingKey / SigningKey .from_der / .from_pem / .from_string, Curve.from_der and PointJacobi.from_bytes every escaping exception class is defined in the ecdsa package or is a ValueError (explicit raises, asserts and implicit raisers; index and assertion obligations discharged by linear entailment from length guards, slice-length definitions and floor-division axioms); each remove_* rejects empty input before indexing and compares the announced length with the bytes available; the remainder after the outer structure of a decoder's input is checked empty, a raw-length point inside DER is rejected, other remainders are parsed further, checked, or belong to a documented optional ASN.1 tail; id-ecPublicKey, the prime-field OID and the 19 curve OIDs equal the registered pinned values and are unique, the 27-byte P-256 header is the exact SubjectPublicKeyInfo prefix; compressed / hybrid / uncompressed prefixes written by the encoders are the ones the decoders accept with the same parity convention. OpenSSL byte compatibility and executed round trips are not decided.",
+    "Decides: for the DER primitives, VerifyingKey / SigningKey .from_der / .from_pem / .from_string, Curve.from_der and PointJacobi.from_bytes every escaping exception class is defined in the ecdsa package or is a ValueError (explicit raises, asserts and implicit raisers; index and assertion obligations discharged by linear entailment from length guards, slice-length definitions and floor-division axioms); each remove_* rejects empty input before indexing and compares the announced length with the bytes available; the remainder after the outer structure of a decoder's input is checked empty, a raw-length point inside DER is rejected, other remainders are parsed further, checked, or belong to a documented optional ASN.1 tail; id-ecPublicKey, the prime-field OID and the 19 curve OIDs equal the registered pinned values and are unique, the 27-byte P-256 header is the exact SubjectPublicKeyInfo prefix; compressed / hybrid / uncompressed prefixes written by the encoders are the ones the decoders accept with the same parity convention; in an explicit-parameters encoding the field elements a and b are written in the length of the field prime (not of the group order). OpenSSL byte compatibility and executed round trips are not decided.",
     "Trusted: python ast, bfsa (EXC, FACTS/Fourier-Motzkin), spec/oids.json, spec/discharge.json. numbertheory and point arithmetic summarised as raising only numbertheory.Error; arithmetic treated as total (p = 0 in explicit parameters is a recorded blind spot); Edwards paths excluded.",
     "DESIGN.md section 4, C19",
 )
 claim(
     "C18", "other",
     "guard normal forms with structural dominance for range / zero / length / trailing-junk checks; exception-escape analysis of the signature decoders and conversion rule for verify_digest; data-flow rule for the verification equation and canonisation",
-    "Decides only the structural clauses: in Public_key.verifies the guards r < 1, r > n-1, s < 1, s > n-1 return False before s is inverted and the verdict is x(u1*G + u2*Q) mod n == r with u1 = e*s^-1, u2 = r*s^-1 (as data flow); Private_key.sign never returns r = 0 or s = 0, sign_digest_deterministic retries only on RSZeroError with retry_gen incremented and passed to generate_k; sigdecode_string requires exactly 2*l bytes split in the middle, sigdecode_strings exactly two strings of l bytes, sigdecode_der exactly SEQUENCE{r, s} with nothing after the sequence or after s; the decoders can only raise MalformedSignature / UnexpectedDER, verify_digest converts both to BadSignatureError and raises it on a False verdict (its only normal return is True); canonical encoders replace s > order/2 by order - s. Not decided (no sound static argument in reach): that library signatures verify, that any single-bit change is rejected, OpenSSL interoperability, RFC 6979 test vectors.",
+    "Decides only the structural clauses: in Public_key.verifies the guards r < 1, r > n-1, s < 1, s > n-1 return False before s is inverted and the verdict is x(u1*G + u2*Q) mod n == r with u1 = e*s^-1, u2 = r*s^-1 (as data flow); Private_key.sign never returns r = 0 or s = 0, sign_digest_deterministic retries only on RSZeroError with retry_gen incremented and passed to generate_k; sigdecode_string requires exactly 2*l bytes split in the middle, sigdecode_strings exactly two strings of l bytes, sigdecode_der exactly SEQUENCE{r, s} with nothing after the sequence or after s; the decoders can only raise MalformedSignature / UnexpectedDER, verify_digest converts both to BadSignatureError and raises it on a False verdict (its only normal return is True); canonical encoders replace s > order/2 by order - s; the point-arithmetic rules of C17 that the verdict is computed with (addition dispatcher, multiply-add combinations and digit walk) are re-run here; the RFC 6979 nonce derivation is compared step by step with the RFC's script, bits2int / bits2octets with their definitions on a grid of values. Not decided (no sound static argument in reach): that library signatures verify, that any single-bit change is rejected, OpenSSL interoperability, RFC 6979 test vectors.",
     "Trusted: python ast, bfsa. The numeric content of ECDSA is outside this check (group law clauses under C17); group orders >= 2.",
     "DESIGN.md section 4, C18",
 )
 claim(
     "C17", "other",
     "constant audit of the 17 curve parameter sets with the checker's own bignum arithmetic; interval analysis in units of p (canonicity domain) over the Jacobian formula functions; sibling rules over the addition variants and dispatcher; guard normal forms for validation and ECDH; (thorough) polynomial identity checking of the formulas against the affine group law",
-    "Decides: for all 17 short-Weierstrass curves p and n are prime, the curve is non-singular, G lies on it, n*G is infinity and the cofactor satisfies Hasse's bound (literals folded from ecdsa.py, checker's own arithmetic); every zero test in the Jacobian formula functions and the dispatcher is applied to a value that lies strictly inside (-p, p) given X, Z in [0, p) and Y in (-p, p), every returned coordinate is reduced, only Y is ever negated -- so points are recognised as equal / infinite regardless of their integer representation; all four addition variants divert equal operands to doubling before the generic formula, the dispatcher handles both infinity operands and every Z shape, public operations map Y3 = 0 or Z3 = 0 to INFINITY; ECDH refuses missing keys, differing curves and an infinite result, keys on another curve are refused before being stored, a failing square root becomes MalformedPointError; the public-key validation chain of C09. Thorough tier: the six formula functions equal the chord/tangent law as identities of rational functions (reductions dropped). Not decided: agreement with OpenSSL, executed group enumeration, equality of ECDH secrets as values.",
+    "Decides: for all 17 short-Weierstrass curves p and n are prime, the curve is non-singular, G lies on it, n*G is infinity and the cofactor satisfies Hasse's bound (literals folded from ecdsa.py, checker's own arithmetic); every zero test in the Jacobian formula functions and the dispatcher is applied to a value that lies strictly inside (-p, p) given X, Z in [0, p) and Y in (-p, p), every returned coordinate is reduced, only Y is ever negated -- so points are recognised as equal / infinite regardless of their integer representation; all four addition variants divert equal operands to doubling before the generic formula, the dispatcher handles both infinity operands and every Z shape, public operations map Y3 = 0 or Z3 = 0 to INFINITY; scalar multiplication recodes the scalar as k = 2k' + d and walks the NAF digits from the most significant end, the combined multiplication mul_add adds the combination its two digits call for and (interpreted on concrete control for digit lists of different lengths) pairs the two lists from their most significant ends with the shorter one zero-extended there; the affine Point class handles infinity, inverse and equal operands before the chord formula, which is checked on a small curve; ECDH refuses missing keys, differing curves and an infinite result, keys on another curve are refused before being stored, a failing square root becomes MalformedPointError; the public-key validation chain of C09. Thorough tier: the six formula functions equal the chord/tangent law as identities of rational functions (reductions dropped). Not decided: agreement with OpenSSL, executed group enumeration, equality of ECDH secrets as values.",
     "Trusted: python ast, bfsa, bfsa.constaudit; sympy (tooling venv) as polynomial normaliser in the thorough tier. Callers pass canonical integers to the low-level point constructors.",
     "DESIGN.md section 4, C17",
 )
